@@ -165,6 +165,32 @@ PROPS = {
         "assumptions": ["frame theorem assumes the next generated identifier is unused (guaranteed by the identifier scheme in reachable states; validated by the history stream)"],
     },
 
+    "C05": {
+        "module": "MantraDex.Properties.C05", "ns": "MantraDex.C05",
+        "theorems": ["create_position_conserves", "expand_position_conserves", "close_position_conserves", "withdraw_position_conserves",
+                     "claim_conserves", "create_farm_conserves", "expand_farm_conserves", "close_farm_conserves", "config_conserves"],
+        "streams": {"fm_hist": (80, 4000), "faults": (30, 1500)},
+        "what": "handler-level conservation law of the farm manager for every token: liability' + outflow(messages) <= liability + inflow(funds), "
+                "where liability = sum of recorded position amounts + sum over farms of (funded - claimed); proved for every message kind "
+                "(positions create/expand/close/withdraw incl. emergency split, claim, farm create/expand/close, config). With the bank semantics "
+                "this is 'balance - liability never decreases', i.e. the farm manager always holds every locked LP and every unclaimed reward",
+        "assumptions": ["the lift through the runtime/bank to whole transactions is validated by the custody monitor on every step of the history and fault streams",
+                        "position/farm identifiers unique and the next generated position id unused (invariants of reachable states, validated by the streams)"],
+    },
+    "C11": {
+        "module": "MantraDex.Properties.C11", "ns": "MantraDex.C11",
+        "theorems": ["farm_asset_exact", "farm_fee_messages", "create_farm_records_partial", "expand_farm_exact", "close_farms_refunds",
+                     "farms_per_lp_le_max_partial", "max_farms_never_decreases"],
+        "streams": {"fm_hist": (80, 4000)},
+        "what": "create_farm takes exactly the reward (+ fee coin when a non-zero fee is due; one coin of reward+fee in the same denom), refunds a fee "
+                "overpayment and sends exactly the fee to the collector; records the full reward as budget, claimed 0, sender as owner, rate = "
+                "floor(reward/(end-start)), start > current epoch within the buffer; expand adds exactly the attached multiple of the rate and extends "
+                "the end by amount/rate, only before the end; closing refunds exactly funded-claimed to the farm owner and nobody else; farms per LP "
+                "token never exceed the configured maximum (for max <= 100, F-12); the maximum can only be raised",
+        "assumptions": ["create_farm_records needs: no expired farm of the LP token carries the new identifier (it would be closed and its id reused in the same call — noted, harmless)",
+                        "F-12: with max_concurrent_farms > MAX_FARMS_LIMIT (100) the limit check only sees 100 farms; proved under max <= 100"],
+    },
+
     "C12": {
         "module": "MantraDex.Properties.C12", "ns": "MantraDex.C12",
         "theorems": ["simulation_eq_swap", "performSwap_frame", "route_eq_simulation", "reverse_quote_plus_one_suffices_partial", "reverse_quote_witness"],
